@@ -183,9 +183,35 @@ def vectors(rng, dvs, limit, cont_samples=2):
     return [[rng.choice(a) for a in axes] for _ in range(limit)], False
 
 
+def choice_cycle(spec):
+    """Circular choice activation: an option of choice a (or a node it derives) is the originating node of choice b, and
+    the other way round (possibly through further choices, or a == b)."""
+    succ = {}
+    for u, v in spec['derives']:
+        succ.setdefault(u, []).append(v)
+
+    def reach(srcs):
+        seen, st = set(srcs), list(srcs)
+        while st:
+            for v in succ.get(st.pop(), []):
+                if v not in seen:
+                    seen.add(v)
+                    st.append(v)
+        return seen
+    n = len(spec['sel'])
+    rel = {a: {b for b in range(n) if spec['sel'][b]['o'] in reach(spec['sel'][a]['opts'])} for a in range(n)}
+    # transitive closure
+    for k in range(n):
+        for a in range(n):
+            if k in rel[a]:
+                rel[a] |= rel[k]
+    return any(a in rel[a] for a in range(n))
+
+
 def cls_of(spec):
     from .props import c02
     c = c02.stream_cls(spec, spec.get('stream', '?'))
+    c['choice_cycle'] = choice_cycle(spec)
     c['has_conn'] = bool(spec.get('conn'))
     c['has_cons'] = bool(spec.get('cons'))
     c['has_dv'] = bool(spec.get('dvs'))
